@@ -29,6 +29,16 @@ for d in sorted(glob.glob("/verif/seeded/C*-*")):
     if rc:
         conf = ("yes (re-confirmed at /repo %s)%s" % (rc.get("head"), (" — " + rc["note"].replace("|", "/")) if rc.get("note") else "")) if rc.get("confirmed") else "when kept; at /repo %s: %s" % (rc.get("head"), (rc.get("note") or "not re-confirmed").replace("|", "/"))
     out.append("| %s | %s — needs: %s | %s | %s |" % (os.path.basename(d), summ, need, conf, "; ".join(caught)))
+out.append("")
+out.append("#### (c) benign refactors (`benign/run_benign.py`, quick tier): no alarm\n")
+out.append("| change | repository suite | checks run | result |")
+out.append("|---|---|---|---|")
+try:
+    for r in json.load(open("/verif/benign/last_results.json")):
+        cs = ", ".join("%s exit %s" % (c, v["exit"]) for c, v in sorted((r.get("checks") or {}).items()))
+        out.append("| %s | %s | %s | %s |" % (r["change"], "passes" if r.get("suite_passes") else "FAILS (not a fair change)", cs, "quiet" if r.get("quiet") else "ALARM"))
+except FileNotFoundError:
+    out.append("| (not run yet) | | | |")
 text = "\n".join(out)
 p = "/verif/DESIGN.md"
 s = open(p).read()
